@@ -255,6 +255,7 @@ class Engine:
         if self.no_branch:
             return thunk()
         outer_dec, outer_pos = self.decisions, self.pos
+        self.merge_depth = getattr(self, "merge_depth", 0) + 1
         base_ctr, base_site = dict(self.fresh_ctr), dict(self.site_ctr)
         base_len = self.pc.mark()
         results = []
@@ -292,6 +293,7 @@ class Engine:
                 local[-1][0] = not local[-1][0]
                 local[-1][1] = False
         finally:
+            self.merge_depth -= 1
             self.pc.reset_to(base_len, pop=True)
             self.decisions, self.pos = outer_dec, outer_pos
             self.site_ctr = base_site
@@ -962,7 +964,15 @@ class Engine:
                 if kind == "for" and name in _target_names(st.target):
                     continue
                 pre[name] = fr.locals[name]
-                fr.locals[name] = self.fresh_like(fr.locals[name], "%s_%s" % (label, name))
+                cur = fr.locals[name]
+                if cur is NONE or isinstance(cur, VOpt):
+                    # the loop may assign a value of another kind: learn it from a sandboxed first iteration
+                    ex = self.discover_assigned(st, fr, kind, seq, name)
+                    if ex is not None and ex is not NONE:
+                        inner = self.fresh_like(ex.inner if isinstance(ex, VOpt) else ex, "%s_%s" % (label, name))
+                        fr.locals[name] = VOpt(z3.Bool(self.fresh_name("%s_%s_isnone" % (label, name))), inner)
+                        continue
+                fr.locals[name] = self.fresh_like(cur, "%s_%s" % (label, name))
             elif name in fr.globals_decl:
                 cur = self.world.get_global(self, fr.module, name)
                 self.world.set_global(self, fr.module, name, self.fresh_like(cur, "%s_%s" % (label, name)))
@@ -1014,6 +1024,48 @@ class Engine:
         if st.orelse:
             self.exec_block(st.orelse, fr)
 
+    def discover_assigned(self, st, fr, kind, seq, name):
+        """Kind of value the loop body assigns to local `name`: run the body once on a copy of the state
+        (all effects discarded) and look at the binding afterwards."""
+        from .world import snapshot
+        found = []
+        saved_ghost = self.ghost
+        saved_vcs = dict(self.vcs)
+
+        def thunk():
+            self.ghost = snapshot(saved_ghost)
+            fr2 = Frame(fr.fi, fr.selfcls, snapshot(fr.locals), fr.module)
+            fr2.contract, fr2.old, fr2.globals_decl = fr.contract, fr.old, fr.globals_decl
+            try:
+                if kind == "for":
+                    n = seq.n if not seq.concrete() else len(seq.items)
+                    if not self.branch(zint(n) > 0):
+                        return VBool(True)
+                    self.assign(st.target, self.list_get(seq, 0), fr2)
+                else:
+                    if not self.is_true(self.eval(st.test, fr2)):
+                        return VBool(True)
+                self.exec_block(st.body, fr2)
+            except (BreakEx, ContinueEx, ReturnEx, Raised):
+                pass
+            v = fr2.locals.get(name)
+            if v is not None and v is not NONE:
+                found.append(v)
+            return VBool(True)
+
+        try:
+            self.eval_merged(thunk)
+        except (OutOfSubset, PathEnd):
+            pass
+        finally:
+            self.ghost = saved_ghost
+            self.vcs.clear()
+            self.vcs.update(saved_vcs)
+        for v in found:
+            if not isinstance(v, VOpt) or v.inner is not NONE:
+                return v
+        return None
+
     def fresh_like(self, v, hint):
         if isinstance(v, VInt):
             return VInt(z3.Int(self.fresh_name(hint)))
@@ -1053,7 +1105,29 @@ class Engine:
         tree = self.world.parse_expr(s)
         return self.eval(tree, fr)
 
+    PURE_CALLS = {"str", "len", "int", "isinstance", "bool", "repr", "type", "ascii_digits", "implies", "old",
+                  "startswith", "endswith", "find", "strip", "lstrip", "rstrip", "lower", "upper", "isdigit", "isascii",
+                  "getselector", "gettype", "getname", "gethost", "getport", "getmimetype", "getsize", "getmtime", "getencoding",
+                  "getencodedmimetype", "getlanguage", "getea", "getgopherpsupport", "getnum", "getfspath_", "get", "group"}
+
+    def is_pure_expr(self, e):
+        for n in ast.walk(e):
+            if isinstance(n, ast.Call):
+                f = n.func
+                name = f.attr if isinstance(f, ast.Attribute) else (f.id if isinstance(f, ast.Name) else None)
+                if isinstance(f, ast.Attribute) and isinstance(f.value, ast.Name) and f.value.id == "S":
+                    continue
+                if name not in self.PURE_CALLS:
+                    return False
+            elif isinstance(n, (ast.NamedExpr, ast.Yield, ast.Await, ast.Lambda, ast.ListComp, ast.GeneratorExp)):
+                return False
+        return True
+
     def eval(self, e, fr):
+        if (isinstance(e, (ast.BoolOp, ast.IfExp)) or (isinstance(e, ast.Subscript) and not isinstance(e.slice, ast.Slice))) \
+                and not getattr(self, "merge_depth", 0) and not self.no_branch and self.is_pure_expr(e):
+            m0 = getattr(self, "ev_" + type(e).__name__)
+            return self.eval_merged(lambda: m0(e, fr))
         m = getattr(self, "ev_" + type(e).__name__, None)
         if m is None:
             raise OutOfSubset("expression %s at line %s" % (type(e).__name__, getattr(e, "lineno", "?")))
@@ -1349,6 +1423,11 @@ class Engine:
             return a.name == b.name
         if isinstance(a, (VInt, VStr)) and isinstance(b, (VInt, VStr)):
             return self.eq(a, b)
+        if isinstance(a, VObj) and isinstance(b, VObj):
+            # a pre-state snapshot of an object is the same object
+            ra = getattr(a, "live", None) or a
+            rb = getattr(b, "live", None) or b
+            return ra is rb
         return a is b
 
     def contains(self, container, item, node):
@@ -1576,7 +1655,8 @@ class Engine:
             raise OutOfSubset("attribute %s.%s (class %s): no field type declared" % (obj.name, attr, obj.cls))
         if isinstance(obj, VExc):
             if attr == "args":
-                return VTuple(obj.args)
+                from .externals import force_oserror_args
+                return VTuple(force_oserror_args(self, obj))
             if attr in obj.attrs:
                 return obj.attrs[attr]
             return self.world.exc_attr(self, obj, attr)
